@@ -155,10 +155,14 @@ def generate(rng: random.Random, tier: str) -> dict:
     big = rng.random() < 0.04
     if big:
         # many tiles per side: 2^levels exceeds the tile size, so padding adds whole tiles
-        ny, nx = rng.choice([257, 272, 300, 513, 64, 100]), rng.choice([257, 272, 300, 513, 16, 100])
+        ny, nx = rng.choice([257, 272, 300, 513, 64, 100, 1, 2]), rng.choice([257, 272, 300, 513, 16, 100])
         if ny * nx > 160000:
             nx = rng.choice([16, 100, 257])
         ns = min(ns, 2)
+        if tier == "thorough" and rng.random() < 0.2:
+            # one step up in scale: six pyramid levels with 32 px tiles, very elongated images
+            ny, nx = rng.choice([(1025, 1025), (1024, 1030), (16, 3000), (3000, 17), (1025, 40)])
+            ns = min(ns, 1)
     dtype, comp, pred = rng.choice(CODEC_DOMAIN["ok"])
     kind = np.dtype(dtype).kind
     nodata: Any = rng.choice([None, None, 0, 7, 200 if dtype != "int8" else -100, "nan"])
@@ -180,6 +184,8 @@ def generate(rng: random.Random, tier: str) -> dict:
         blocksize = "unset"
     if big:
         blocksize = rng.choice([[16], [32, 16], 16, [20], [48, 16]])
+        if max(ny, nx) > 600:
+            blocksize = rng.choice([[32], [32, 16], [64, 32]])
     cs = [8, 16, 20, 32, 64, 200]
     chy, chx = rng.choice(cs), rng.choice(cs)
     if big:
